@@ -15,7 +15,7 @@ use std::process::{Command, Stdio};
 pub const VOCAB: &[&str] = &[
     "(", ")", "(?", "?<", "?P<", "?P=", "?(", "\\k<", "\\g", "{", ",", "}", "[", "[^", "]", "\\", "\\x{", "\\p{", "(?#", "(?x)", "#", "|", "*", "+", "?", ".", "^", "$", "a", "é", "😀", "0",
     "1", "99999999999", "18446744073709551615", "-1", "n", ">", "<", "'", "=", "!", ":", "-", "i", "(?i)", "(?=", "(?<=", "(?<!", "(?!", "(?>", "\\1", "\\b", "\\K", "\\G", "\\Z", "\\u", "\\U",
-    "\\x", "\\h", "\\d", "\\e", " ", "\n", "&&", "\\k'", "\\g<", "(?P>", "(?(1)", "(?<n>", "(?P<n>", "\\k<n>", "\\p", "L}", "{2}", "{2,}", "{,3}", "\\k<-", "+?", "\\😀", "{18446744073709551615}", "{99999999999}", "{2,18446744073709551615}", "{4294967296}",
+    "\\x", "\\h", "\\d", "\\e", " ", "\n", "&&", "\\k'", "\\g<", "(?P>", "(?(1)", "(?<n>", "(?P<n>", "\\k<n>", "\\p", "L}", "{2}", "{2,}", "{,3}", "\\k<-", "+?", "\\😀", "{18446744073709551615}", "{99999999999}", "{2,18446744073709551615}", "{4294967296}", "{1000}", "{100}",
 ];
 
 const MIB: usize = 1 << 20;
@@ -32,9 +32,18 @@ pub struct Info {
     pub nontrivial: bool,
 }
 
+thread_local! {
+    /// set in worker processes: allocations far beyond the caps are refused, which aborts the worker
+    pub static ENFORCE: std::cell::Cell<bool> = const { std::cell::Cell::new(false) };
+}
+
 /// The oracle for one input string.
 pub fn check_compile(s: &str) -> Result<Info, Fail> {
-    let (r, usage) = alloc_count::measure(|| catch_unwind(AssertUnwindSafe(|| Regex::new(s))));
+    let (r, usage) = if ENFORCE.with(|e| e.get()) {
+        alloc_count::measure_with_budget(4 * peak_cap(s.len()), 4 * total_cap(s.len()), || catch_unwind(AssertUnwindSafe(|| Regex::new(s))))
+    } else {
+        alloc_count::measure(|| catch_unwind(AssertUnwindSafe(|| Regex::new(s))))
+    };
     let info = match r {
         Err(e) => return Err(Fail::new("panic", "Ok or Err", format!("Regex::new PANIC({})", engine::panic_msg(e)))),
         Ok(Ok(re)) => {
@@ -187,6 +196,31 @@ fn mutate(corpus: &[String], bytes: &[u8]) -> String {
     s.into_iter().collect()
 }
 
+/// deeply nested inputs: every opener (and pairs of openers) repeated around the recursion limit and far beyond
+pub fn nesting_inputs() -> Vec<String> {
+    const OPENERS: &[(&str, &str)] = &[
+        ("(", ")"), ("(?:", ")"), ("(?=", ")"), ("(?!", ")"), ("(?<=", ")"), ("(?<!", ")"), ("(?>", ")"), ("(?<n>", ")"), ("(?i:", ")"), ("(?(a)", ")"), ("(?(1)", ")"), ("(?(a)b|", ")"),
+        ("(?((", "))"), ("[", "]"), ("[a&&[", "]]"), ("(?#", ")"), ("a|(", ")"), ("(a", ")*"), ("(?x: (", "))"), ("\\(", ")"),
+    ];
+    let depths = [31usize, 62, 63, 64, 65, 66, 130, 1000, 20_000, 120_000];
+    let mut out = vec![];
+    for &(o, c) in OPENERS {
+        for &d in &depths {
+            out.push(format!("{}a{}", o.repeat(d), c.repeat(d)));
+            out.push(format!("{}a", o.repeat(d)));
+            out.push(format!("(b)?{}\\1{}", o.repeat(d), c.repeat(d)));
+        }
+    }
+    for (i, &(o1, c1)) in OPENERS.iter().enumerate() {
+        for &(o2, c2) in OPENERS.iter().skip(i + 1).step_by(3) {
+            for &d in &[33usize, 70, 5000] {
+                out.push(format!("{}a{}", format!("{}{}", o1, o2).repeat(d), format!("{}{}", c2, c1).repeat(d)));
+            }
+        }
+    }
+    out
+}
+
 fn random_tokens(bytes: &[u8]) -> String {
     let mut d = Dec::new(bytes);
     let n = 4 + d.below(12);
@@ -230,6 +264,7 @@ pub fn worker(ctx: &RunCtx, args: &[String]) {
     let param: u64 = args[3].parse().unwrap();
     let trace = args.get(4).map_or(false, |s| s == "trace");
     limit_address_space(12 << 30);
+    ENFORCE.with(|e| e.set(true));
     let mut st = Stats::default();
     let mut seen: HashSet<u64> = HashSet::new();
     let mut failure: Option<(String, Fail)> = None;
@@ -274,6 +309,19 @@ pub fn worker(ctx: &RunCtx, args: &[String]) {
                 }
                 true
             });
+        }
+        "nesting" => {
+            let mut k = 0u64;
+            for input in nesting_inputs() {
+                k += 1;
+                if k % nshards != shard {
+                    continue;
+                }
+                if let Some(f) = run_one(&input, &mut st, &mut seen, &mut hashes, false) {
+                    failure = Some((input, f));
+                    break;
+                }
+            }
         }
         "random-tokens" | "mutations" => {
             let corp = if stage == "mutations" { corpus() } else { vec![] };
@@ -442,7 +490,7 @@ fn run_stage(ctx: &RunCtx, o: &mut Outcome, stage: &str, param: u64, hashes: &mu
 
 pub fn run(ctx: &RunCtx) -> Outcome {
     let mut o = Outcome::default();
-    o.rule = format!("inputs: (a) every sequence of <= k tokens over a {}-token vocabulary of syntax fragments (unbalanced delimiters, multi-byte characters, huge numbers, every group opener / escape prefix), (b) proptest random longer token sequences, (c) proptest character-level mutations (delete, duplicate, swap, token insertion, splice, truncate) of pattern literals found in the repository's tests and of valid patterns printed from the harness AST. Oracle per input, in a worker process with a counting allocator and RLIMIT_AS: Regex::new / Expr::parse_tree / RegexBuilder (tiny limits) return without panic (overflow checks on), Error Display works, ParseError position <= len, peak heap <= 256 MiB + 4 MiB*len, cumulative allocation <= 4 GiB + 64 MiB*len; a worker killed by a signal is re-run with tracing and the input in flight is the counterexample. Non-trivial = the input parsed, or failed at a position > 0. Distinct = distinct input strings (hash-partitioned over workers).", VOCAB.len());
+    o.rule = format!("inputs: (a) every sequence of <= k tokens over a {}-token vocabulary of syntax fragments (unbalanced delimiters, multi-byte characters, huge numbers, every group opener / escape prefix), (b) proptest random longer token sequences, (c) every group opener (and pairs) nested 31..120000 deep with and without closers, (d) proptest character-level mutations (delete, duplicate, swap, token insertion, splice, truncate) of pattern literals found in the repository's tests and of valid patterns printed from the harness AST. Oracle per input, in a worker process with a counting allocator and RLIMIT_AS: Regex::new / Expr::parse_tree / RegexBuilder (tiny limits) return without panic (overflow checks on), Error Display works, ParseError position <= len, peak heap <= 256 MiB + 4 MiB*len, cumulative allocation <= 4 GiB + 64 MiB*len; a worker killed by a signal is re-run with tracing and the input in flight is the counterexample. Non-trivial = the input parsed, or failed at a position > 0. Distinct = distinct input strings (hash-partitioned over workers).", VOCAB.len());
     o.assumptions = vec!["wall-clock time is only a watchdog; time proportionality is checked through allocation volume".into()];
     o.required_classes = vec!["ok".into(), "ParseError:UnclosedOpenParen".into(), "CompileError:InvalidBackref".into()];
     let quick = ctx.quick();
@@ -450,6 +498,7 @@ pub fn run(ctx: &RunCtx) -> Outcome {
     let k = if quick { 3 } else { 4 };
     run_stage(ctx, &mut o, "tokens", k, &mut hashes);
     o.exhaustive = Some(format!("all sequences of <= {} tokens over the {}-token vocabulary", k, VOCAB.len()));
+    run_stage(ctx, &mut o, "nesting", 0, &mut hashes);
     run_stage(ctx, &mut o, "random-tokens", if quick { 40_000 } else { 400_000 }, &mut hashes);
     run_stage(ctx, &mut o, "mutations", if quick { 80_000 } else { 800_000 }, &mut hashes);
     for (i, h) in hashes.iter().enumerate() {
@@ -480,6 +529,7 @@ pub fn replay(_ctx: &RunCtx, case: &Value) -> Result<Option<Fail>, String> {
 
 pub fn one(s: &str) {
     limit_address_space(12 << 30);
+    ENFORCE.with(|e| e.set(true));
     match check_compile(s) {
         Ok(i) => println!("OK {}", i.class),
         Err(f) => println!("FAIL {} {} {}", f.kind, f.expected, f.actual),
